@@ -130,10 +130,12 @@ def is_ext(xtoks):
 
 def run(ctx):
     ctx.regen(["scantok"])
+    sc.gen_notes(ctx)
     ctx.prove("C16")
     R = sc.Runner(ctx)
     groups = []          # (name, [src], compare_real_scanners)
-    nums = [s for s in sc.exhaustive(NUM_ALPHA, ctx.n(4, 5)) if s]
+    num_alpha = [a for a in NUM_ALPHA if a not in (b"7", b"+")] if ctx.quick else NUM_ALPHA
+    nums = [s for s in sc.exhaustive(num_alpha, ctx.n(4, 5)) if s]
     groups.append(("numeric", nums, True))
     strs = []
     for q in (b'"', b"'", b"`"):
@@ -223,7 +225,7 @@ def run(ctx):
                    "(%d inputs). Every source x {comments on, off} x {XGo, go/scanner}. The real scanners are compared where the XGo "
                    "scanner's output has no extension token; numeric/string spellings containing '...' are left to the finding set. "
                    "distinct = distinct source" %
-                   (len(nums), ctx.n(4, 5), b" ".join(NUM_ALPHA).decode(), len(strs), len(ESC_ATOMS), len(seqs), len(mal), len(FINDING_SET)),
+                   (len(nums), ctx.n(4, 5), b" ".join(num_alpha).decode(), len(strs), len(ESC_ATOMS), len(seqs), len(mal), len(FINDING_SET)),
               exhaustive_part=4 * (len(nums) + len(strs)), compare_stats=stats, theorem_hypothesis_stats=gl, compared_per_group=per_group,
               sequence_shape_histogram=dict(sorted(shapes.items())))
     ctx.trust("modelled, not verified: scanner/scanner.go and $GOROOT/src/go/scanner/scanner.go (one Gallina text with a dialect switch), "
